@@ -604,8 +604,10 @@ impl Check for C05 {
                     Ok(_) => "the emitted chunk loads".to_string(),
                     Err(e) => format!("the emitted chunk does not load: {} [{}] (chunk line {})", e.msg, e.class, e.line),
                 };
+                // the access path is part of the signature where it is a root cause of its own
+                let path = if b.form.starts_with("nested-blob-declared-later") { "/through-field-of-blob-declared-later" } else { "" };
                 Verdict::Violation {
-                    signature: format!("C05/accepted/{}", kind.group()),
+                    signature: format!("C05/accepted/{}{}", kind.group(), path),
                     detail: format!(
                         "a program with a planted `{}` violation was accepted ({} bytes of Lua); {}\nplacement: {} (closure depth {}, fn: {}) form: {}\n\
                          the legal twin is accepted as well, the unplanted program too\n--- source ---\n{}",
